@@ -236,7 +236,9 @@ def session_requests(rng, quick):
         cmid[0] += 1
         b = (body % cmid[0]) if "%d" in body else body
         reqs.append(R(meth, PUBLIC + "{%s:%s}" % (t, fmt) + suffix, cred, "-", b))
-    for t in targets:
+    for t in ["3"] + [x for x in targets if x != "3"]:
+        if t == "0":
+            reqs.append(WATCH)
         others = [x for x in ("0", "1", "2") if x != t]
         for meth, suffix, body in routes:
             creds = ["-", "e"] + ["a" + o for o in others] + ["l" + hx("x"), "l" + hx("0" * 256)]
@@ -298,9 +300,15 @@ def setup_ops():
     for k in (1, 2, 3):
         ops += [I(k, "NICK vnick%d" % k), I(k, "USER v%d 0 * :Verif %d" % (k, k))]
     ops += [I(1, "JOIN #verif"), I(2, "JOIN #verif"), I(1, "PRIVMSG #verif :secret-text-of-one"), I(2, "PRIVMSG #verif :secret-text-of-two"),
-            I(2, "PRIVMSG vnick1 :private-for-one-only"), "D:3:%s" % hx('{"Quitmessage":"gone"}'),
-            "L:1"]     # the rightful owner of session 1 keeps its long poll open while the matrix runs
+            I(2, "PRIVMSG vnick1 :private-for-one-only"), "D:3:%s" % hx('{"Quitmessage":"gone"}')]
     return ops
+
+
+# the rightful owner of session 1 keeps its long poll open while (most of) the matrix runs; every R op then reports
+# whether that stream survived the request and still delivers.  The liveness probe posts a PING as session 1, which
+# moves IRCServer.lastProcessed (to the session's id, sic), so the requests aimed at the deleted session 3 — the ones
+# that exercise "No such session" rather than "Session not yet seen" — are issued before the watch starts.
+WATCH = "L:1"
 
 
 UINT_STRINGS = ["", "0", "1", "7", "42", "007", "08", "0x", "0x1f", "0X1F", "0xg", "0b101", "0B2", "0o17", "0O8", "017", "1_000", "0x_1f", "0_7",
@@ -399,7 +407,7 @@ def monitor_probe(o):
 
 def minimise(ck, wiring, setup, tok):
     """smallest history on which this request still fails the monitor: no setup at all, else the full setup"""
-    for ops in (["N"], ["N"] + setup[1:2], setup):
+    for ops in (["N"], ["N"] + setup[1:2], setup, setup + [WATCH]):
         res, _ = run_go(["api min " + " ".join(ops + [tok])], wiring, "min")
         if not res:
             continue
